@@ -46,7 +46,10 @@ P = {'id': 'C11',
               'co_sort_sorts',
               'kv_sort_keeps_pairs',
               'merge_tree_merges',
-              'vec_external_sort_sorts'],
+              'vec_external_sort_sorts',
+              'sort_bytes_unfixed_depth_unbounded',
+              'sort_bytes_depth_bounded',
+              'sort_bytes_fix_keeps_result'],
  'trusted': ['modelled (M+S): src/algorithms/radix_sort.rs RadixSort::sort_u32 / sort_u64 incl. the chunk + merge paths (par_chunks_mut / chunks with the '
              'chunk size from the thread count, MultiWayMerge::merge dispatch), sort_u32_sequential / sort_u64_sequential (counts array, exclusive prefix '
              'sums, scatter into a zeroed buffer), counting_sort_u32, sort_bytes / sort_bytes_msd, KeyValueRadixSort::sort_by_key (per-key position queues); '
@@ -87,8 +90,8 @@ P = {'id': 'C11',
                'sorted inputs; (5) a verified checker is_sorted_perm <-> Sorted /\\ Permutation, and uniqueness of the sorted permutation. All other entry '
                'points and configurations the property names are decided by a direct oracle on the real code (std sort, concatenate-and-sort, textbook '
                'two-pointer algorithms) and, for sort cells without a mechanism model, by evaluating the verified checker in Coq on the implementation output. '
-               'Extension (30 further theorems): (6) AdvancedRadixSort::msd_radix_sort as coded sorts RadixString (lexicographic byte order) and u32/u64 for '
-               'every insertion threshold, RadixSort::sort_bytes likewise; (7) AdvancedRadixSort::sort - whichever strategy is forced or selected adaptively, '
+               'Extension (33 further theorems): (6) AdvancedRadixSort::msd_radix_sort as coded sorts RadixString (lexicographic byte order) and u32/u64 for '
+               'every insertion threshold, RadixSort::sort_bytes likewise (after fix 50ae740: with the common-prefix skip its nesting depth is at most the number of strings, before it the length of the common prefix); (7) AdvancedRadixSort::sort - whichever strategy is forced or selected adaptively, '
                'every radix width, threshold and thread count - yields the sorted permutation for u32/u64, and for RadixString under the exact hypothesis that '
                'the sequential LSD path is not taken on strings with colliding 8-byte keys (refutation witness otherwise: the recorded finding); (8) '
                'RadixSort::sort_u32/u64 incl. the chunk + merge path for every thread count and threshold: the slices sorted and the slices merged are the '
